@@ -73,10 +73,11 @@ func pageThrough(w *World, q *QuerySpec, f pageFn) ([]item, uint64, bool, error)
 			limit = q.Rest
 		}
 		pr := &query.PageRequest{Limit: limit, Reverse: q.Rev}
+		if o := map[bool]uint64{true: offset}[q.Offset]; o+limit < o || o+limit == ^uint64(0) {
+			// offset+limit, or the "one more than the page" the paginator looks ahead for, exceeds 2^64-1
+			q.overflowed = true
+		}
 		if q.Offset {
-			if offset+limit < offset {
-				q.overflowed = true
-			}
 			pr.Offset = offset
 			pr.CountTotal = q.Count
 		} else {
@@ -114,8 +115,14 @@ func (m *monC20) OnQuery(w *World, q *QuerySpec, mid bool) {
 	before := w.Ref.App.LastCommitID()
 	digBefore := fullModuleDigest(w, w.CCtx())
 	items, want, total, haveTotal, err := m.run(w, q)
+	// its own classes: some page request's offset+limit (or the one item the paginator looks ahead)
+	// does not fit 64 bits
+	ov := ""
+	if q.overflowed {
+		ov = "/offset-plus-limit-overflows"
+	}
 	if err != nil {
-		w.Violate("C20", "C20/"+q.Kind+"/query-error", "%s (%+v): %v", q.Kind, *q, err)
+		w.Violate("C20", "C20/"+q.Kind+"/query-error"+ov, "%s (%+v): %v", q.Kind, *q, err)
 		return
 	}
 	where := "boundary"
@@ -131,7 +138,7 @@ func (m *monC20) OnQuery(w *World, q *QuerySpec, mid bool) {
 	}
 	for _, id := range sortedKeys(seen) {
 		if seen[id] > 1 {
-			w.Violate("C20", "C20/"+q.Kind+"/duplicate-item", "%s %s: %s returned %d times (limit %d offset %v reverse %v filter %q)", where, q.Kind, id, seen[id], q.Limit, q.Offset, q.Rev, q.Filter)
+			w.Violate("C20", "C20/"+q.Kind+"/duplicate-item"+ov, "%s %s: %s returned %d times (limit %d offset %v reverse %v filter %q)", where, q.Kind, id, seen[id], q.Limit, q.Offset, q.Rev, q.Filter)
 		}
 		if _, ok := want[id]; !ok {
 			w.Violate("C20", "C20/"+q.Kind+"/unexpected-item", "%s %s: %s returned but does not match the filter / is not stored (filter %q)", where, q.Kind, id, q.Filter)
@@ -139,12 +146,7 @@ func (m *monC20) OnQuery(w *World, q *QuerySpec, mid bool) {
 	}
 	for _, id := range sortedKeys(want) {
 		if seen[id] == 0 {
-			if q.overflowed {
-				// its own class: the request's offset+limit does not fit 64 bits
-				w.Violate("C20", "C20/"+q.Kind+"/missing-item/offset-plus-limit-overflows", "%s %s: %s stored and matching but not returned (limit %d then %d, offset paging, reverse %v filter %q; got %d of %d)", where, q.Kind, id, q.Limit, q.Rest, q.Rev, q.Filter, len(items), len(want))
-				break
-			}
-			w.Violate("C20", "C20/"+q.Kind+"/missing-item", "%s %s: %s stored and matching but not returned (limit %d offset %v reverse %v filter %q; got %d of %d)", where, q.Kind, id, q.Limit, q.Offset, q.Rev, q.Filter, len(items), len(want))
+			w.Violate("C20", "C20/"+q.Kind+"/missing-item"+ov, "%s %s: %s stored and matching but not returned (limit %d then %d, offset %v reverse %v filter %q; got %d of %d)", where, q.Kind, id, q.Limit, q.Rest, q.Offset, q.Rev, q.Filter, len(items), len(want))
 			break
 		}
 	}
@@ -160,7 +162,7 @@ func (m *monC20) OnQuery(w *World, q *QuerySpec, mid bool) {
 	// ascending key order (descending when reversed)
 	for i := 1; i < len(items); i++ {
 		if (!q.Rev && items[i].Ord < items[i-1].Ord) || (q.Rev && items[i].Ord > items[i-1].Ord) {
-			w.Violate("C20", "C20/"+q.Kind+"/order-wrong", "%s: %s after %s", q.Kind, items[i].ID, items[i-1].ID)
+			w.Violate("C20", "C20/"+q.Kind+"/order-wrong"+ov, "%s: %s after %s", q.Kind, items[i].ID, items[i-1].ID)
 			break
 		}
 	}
